@@ -10,7 +10,7 @@ use spl_frontend::{
         Expression, GlobalDeclaration, Identifier, ParameterDeclaration, Program, Reference,
         Statement, TypeExpression, Variable, VariableDeclaration,
     },
-    table::{Entry, GlobalEntry, GlobalTable, LookupTable},
+    table::{Entry, GlobalEntry, GlobalTable, SymbolTable},
     Shiftable, ToRange, ToTextRange,
 };
 use std::collections::HashMap;
@@ -25,13 +25,20 @@ pub async fn rename(
     let new_name = params.new_name;
     if let Some(cursor) = super::doc_cursor(doc_params, doctx).await? {
         if let Some(ident) = &cursor.ident() {
+            let global_position = cursor.is_global_position();
             let DocumentCursor { doc, context, .. } = cursor;
             if let Some(entry) = context {
-                // Early return for int
-                if &ident.value == "int" {
+                // Early return for predefined names
+                if is_predefined(ident, &entry, &doc.table, global_position) {
                     return Ok(None);
                 }
-                let idents = find_referenced_identifiers(ident, &entry, &doc.ast, &doc.table);
+                let idents = find_referenced_identifiers(
+                    ident,
+                    &entry,
+                    &doc.ast,
+                    &doc.table,
+                    global_position,
+                );
                 // it seems like the original identifier is changed automatically,
                 // so it does not need to be added to `idents`
                 let text_edits = idents
@@ -61,9 +68,11 @@ pub async fn prepare_rename(
 ) -> Result<Option<PosRange>> {
     if let Some(cursor) = super::doc_cursor(params, doctx).await? {
         if let Some(ident) = &cursor.ident() {
-            // Early return for int
-            if &ident.value == "int" {
-                return Ok(None);
+            // Early return for predefined names
+            if let Some(entry) = &cursor.context {
+                if is_predefined(ident, entry, &cursor.doc.table, cursor.is_global_position()) {
+                    return Ok(None);
+                }
             }
             let text = cursor.doc.text;
             return Ok(Some(as_pos_range(&ident.to_range(), &text)));
@@ -80,9 +89,16 @@ pub async fn find(
     let uri = doc_params.text_document.uri.clone();
     if let Some(cursor) = super::doc_cursor(doc_params, doctx).await? {
         if let Some(ident) = &cursor.ident() {
+            let global_position = cursor.is_global_position();
             let DocumentCursor { doc, context, .. } = cursor;
             if let Some(entry) = context {
-                let identifiers = find_referenced_identifiers(ident, &entry, &doc.ast, &doc.table);
+                let identifiers = find_referenced_identifiers(
+                    ident,
+                    &entry,
+                    &doc.ast,
+                    &doc.table,
+                    global_position,
+                );
                 let references = identifiers
                     .into_iter()
                     .map(|identifier| {
@@ -101,32 +117,49 @@ pub async fn find(
     Ok(None)
 }
 
+/// Looks the identifier up as the compiler binds it:
+/// globally in a global position, in the enclosing procedure first otherwise.
+fn resolve<'a>(
+    ident: &Ident,
+    context: &'a GlobalEntry,
+    global_table: &'a GlobalTable,
+    global_position: bool,
+) -> Option<Entry<'a>> {
+    match context {
+        GlobalEntry::Procedure(p) => {
+            super::lookup_table_for(global_table, &p.local_table, global_position)
+                .lookup(&ident.value)
+        }
+        GlobalEntry::Type(_) => global_table.lookup(&ident.value).map(Entry::from),
+    }
+}
+
+/// Predefined types and procedures have no declaration that could be renamed.
+fn is_predefined(
+    ident: &Ident,
+    context: &GlobalEntry,
+    global_table: &GlobalTable,
+    global_position: bool,
+) -> bool {
+    resolve(ident, context, global_table, global_position).map_or(false, |entry| entry.is_default())
+}
+
 fn find_referenced_identifiers(
     ident: &Ident,
     entry: &GlobalEntry,
     program: &Program,
     global_table: &GlobalTable,
+    global_position: bool,
 ) -> Vec<Identifier> {
     match entry {
-        GlobalEntry::Procedure(p) => {
-            if p.name.value == ident.value {
-                find_procs(&ident.value, program)
-            } else {
-                let lookup_table = LookupTable {
-                    global_table: Some(global_table),
-                    local_table: Some(&p.local_table),
-                };
-                lookup_table
-                    .lookup(&ident.value)
-                    .map_or_else(Vec::new, |entry| match &entry {
-                        Entry::Type(_) => find_types(&ident.value, program),
-                        Entry::Procedure(_) => find_procs(&ident.value, program),
-                        Entry::Variable(_) | Entry::Parameter(_) => {
-                            find_vars(&ident.value, &p.name.value, program)
-                        }
-                    })
-            }
-        }
+        GlobalEntry::Procedure(p) => resolve(ident, entry, global_table, global_position)
+            .map_or_else(Vec::new, |entry| match &entry {
+                Entry::Type(_) => find_types(&ident.value, program),
+                Entry::Procedure(_) => find_procs(&ident.value, program),
+                Entry::Variable(_) | Entry::Parameter(_) => {
+                    find_vars(&ident.value, &p.name.value, program)
+                }
+            }),
         GlobalEntry::Type(_) => find_types(&ident.value, program),
     }
 }
